@@ -25,7 +25,7 @@ LEVEL_TEXT = ("The C09 scenario generator (random coastlines, jets with Courant 
               "checked by a python-side index monitor. Evidence reports the closest approach to each array edge that was actually observed.")
 LEVEL_NOTE = "numba's checker does not flag negative indices (they wrap); the shadow monitor covers those. A dying interpreter during a run counts as a violation."
 RULE = ("case = C09-style world/run with boundary-hugging releases. Non-trivial: some kernel call came within one cell of an array edge; distinct by case parameters.")
-MANDATORY = ["second_run_on_same_files_larger_grid", "family_c09", "family_c14", "family_c10", "family_c08", "family_lonlat", "family_vinfo", "particles_exactly_on_level_depths", "trilinear_calls", "z2s_kernel_calls", "sample3D_nearest_calls", "within_one_cell_of_edge", "scheme_RK2", "scheme_RK4", "subgrid", "boundscheck_active",
+MANDATORY = ["two_models_alive_and_stepped_in_turn", "warm_start_from_packed_positions", "second_run_on_same_files_larger_grid", "family_c09", "family_c14", "family_c10", "family_c08", "family_lonlat", "family_vinfo", "particles_exactly_on_level_depths", "trilinear_calls", "z2s_kernel_calls", "sample3D_nearest_calls", "within_one_cell_of_edge", "scheme_RK2", "scheme_RK4", "subgrid", "boundscheck_active",
              "surface_or_bottom_particles", "diffusion_on"]
 ASSUMPTIONS = ["N >= 2 (with a single level no level pair exists)"]
 BOUNDSCHECK = True
@@ -58,6 +58,8 @@ def gen_cases(tier: str, seed: int) -> list[dict[str, Any]]:
     for i in range(12 if tier == "quick" else 1500):
         cases.append(dict(family="lonlat", seed=seed, idx=i))
     # vertical grid given through the Vinfo option, level counts over the whole documented range (incl. those where 1/N is awkward in floating point)
+    for i in range(6 if tier == "quick" else 300):
+        cases.append(dict(family="two", seed=seed, idx=i))
     for i in range(8 if tier == "quick" else 120):
         c = C09.gen_case(seed + 2000, i)
         c.update(family="vinfo", scheme=["RK4", "EF", "RK2"][i % 3], diffusion=0.0, N=[49, 30, 57, 60, 53, 7, 58, 41][i % 8] if tier == "quick" else 1 + (i + seed) % 60)
@@ -104,6 +106,9 @@ def run_case(case: dict[str, Any], wd: Path) -> dict[str, Any]:
         b = C10.build(dict(seed=case["seed"], idx=case["idx"]))
         scn, _fwd, _start = C10.scenarios(b)
         case = dict(case, scheme=b["scheme"], diffusion=0.0, subgrid=None, imax=20, jmax=16, N=3, flow="reversed " + b["pattern"]["kind"])
+    elif fam == "two":
+        scn = None
+        case = dict(case, scheme=["EF", "RK2", "RK4"][case["idx"] % 3], diffusion=0.0, subgrid=[3, 12, 2, 10], imax=18, jmax=14, N=2, flow="two simulations alive, stepped in turn")
     elif fam == "lonlat":
         # release by longitude/latitude, some rows outside the loaded (sub)grid: wherever the conversion puts them, the kernels must stay inside
         from vmon import world as W  # noqa: PLC0415
@@ -234,6 +239,28 @@ def run_case(case: dict[str, Any], wd: Path) -> dict[str, Any]:
             _r0, _c0, world0 = run_scenario(pre, wd, conf_name="pre.yaml")
             res, conf, world = run_scenario(dict(world=None, run=scn["run"]), wd, world=world0)
             sit["second_run_on_same_files_larger_grid"] = 1
+        elif fam == "two":
+            # two Model objects in one process (whole grid / small subgrid of other files), stepped in turn: every kernel call stays inside its own arrays
+            from vmon.props import C19  # noqa: PLC0415
+            from vmon.scenario import RunResult  # noqa: PLC0415
+
+            r19 = C19.run_two_models(dict(kind="two_models", idx=case["idx"], seed=case["seed"]), wd)
+            failed = [v_ for v_ in r19.get("violations", []) if "stepped in turn:" in v_.get("what", "")]
+            res = RunResult("error", exc=failed[0]["what"], tb=str(failed[0].get("detail", {}).get("tb", ""))) if failed else RunResult("ok")
+            sit["two_models_alive_and_stepped_in_turn"] = 1
+        elif fam == "c08":
+            # the restart scenario proper: X and Y stored packed in the output, a continuation warm-started from the first file, kernels watched throughout
+            scn["run"]["output"]["instance"]["X"] = dict(datatype="i4", scale_factor=1.0e-4)
+            scn["run"]["output"]["instance"]["Y"] = dict(datatype="i4", scale_factor=1.0e-4)
+            res, conf, world = run_scenario(scn, wd)
+            if res.ok and len(res.outputs) > 1:
+                run2 = dict(scn["run"], warm_start=dict(filename=str(res.outputs[0]), variables=[v_ for v_ in ("release_time", "age", "weight", "temp")
+                                                                                                 if v_ in scn["run"]["state"]["instance_variables"] or v_ in scn["run"]["state"].get("particle_variables", {})]))
+                run2["output"] = dict(scn["run"]["output"], filename="restart_001.nc")
+                res2, _c2, _w2 = run_scenario(dict(world=None, run=run2), wd / "restart", world=world)
+                sit["warm_start_from_packed_positions"] = 1
+                if not res2.ok:
+                    res = res2
         elif pre_world is not None:
             res, conf, world = run_scenario(dict(world=None, run=scn["run"]), wd, world=pre_world, tweak=tweak)
             sit["particles_exactly_on_level_depths"] = 1
